@@ -1735,6 +1735,23 @@ pub fn gen_plan(rng: &mut Rng, doc_len: usize, interesting: &[usize], g: &PlanGe
             }
         }
     }
+    if rng.chance(1, 12) {
+        // a reader that calls the library itself, once or twice, at any point
+        // of the stream (also instead of the final Ok(0))
+        for _ in 0..rng.urange(1, 2) {
+            let at = rng.usize_below(plan.steps.len() + 1);
+            let n = rng.pick(&[1u32, 7, 100, 4096]);
+            plan.steps.insert(at, ReadStep::Reenter(n));
+        }
+        if rng.chance(1, 3) {
+            // ... and when the stream is (nearly) at its end
+            let chunks = doc_len / 4096 + 2;
+            while plan.steps.len() < chunks {
+                plan.steps.push(ReadStep::Full);
+            }
+            plan.steps.push(ReadStep::Reenter(4096));
+        }
+    }
     if g.scribble && rng.chance(1, 4) {
         let all = rng.chance(1, 2);
         for s in plan.steps.iter_mut() {
